@@ -1023,6 +1023,21 @@ Proof.
   - apply IH; [|exact E2]. intros x y Hx Hy. apply Hinj; simpl; auto.
 Qed.
 
+(* whatever the piece boundaries, the digest of a reader is H of all its bytes *)
+Lemma loop_fed_all ps : forallb nonempty ps = true -> loop_fed ps = concat ps.
+Proof.
+  induction ps as [|p ps IH]; [reflexivity|]. simpl forallb. intro Hn. apply andb_true_iff in Hn. destruct Hn as [Hp Hr].
+  destruct p as [|c p]; [discriminate|]. simpl. rewrite (IH Hr). reflexivity.
+Qed.
+
+Lemma reader_digest_pieces m (H : bytes -> bytes) ps1 ps2 :
+  m = StopAtEof -> forallb nonempty ps1 = true -> forallb nonempty ps2 = true -> concat ps1 = concat ps2 ->
+  reader_digest m H ps1 = H (concat ps1) /\ reader_digest m H ps1 = reader_digest m H ps2.
+Proof.
+  intros Em N1 N2 E. subst m. unfold reader_digest. rewrite (loop_fed_all ps1 N1), (loop_fed_all ps2 N2), E.
+  split; reflexivity.
+Qed.
+
 Section Families.
   Variable H : bytes -> bytes.
 
